@@ -239,6 +239,19 @@ impl Sys for MapMv {
             _ => "?".into(),
         }
     }
+    fn rust_type() -> &'static str {
+        "Map<u8, MVReg<u8, u8>, u8>"
+    }
+    fn rust_gen(c: Cmd, a: u8, idx: usize) -> String {
+        match c.k {
+            UP => format!("s.update({k}u8, s.get(&{k}).derive_add_ctx({a}), |r, c| r.write({v}u8, c))", k = c.x, a = a, v = idx),
+            RM_GET => format!("s.rm({k}u8, s.get(&{k}).derive_rm_ctx())", k = c.x),
+            _ => format!("s.rm({k}u8, s.read_ctx().derive_rm_ctx())", k = c.x),
+        }
+    }
+    fn rust_reads() -> &'static str {
+        "let v: Vec<(u8, Vec<u8>, VClock<u8>)> = s.iter().map(|c| { let mut x = c.val.1.read().val; x.sort(); (*c.val.0, x, c.rm_clock.clone()) }).collect(); format!(\"key -> values, key witness {:?} clock {:?}\", v, s.read_ctx().add_clock)"
+    }
     fn classes(_c: Cmd) -> (Class, Class) {
         (Class::Key, Class::None)
     }
